@@ -616,8 +616,9 @@ func (r *Raft) AddServer(
 	configuration.Members[id] = address
 	configuration.IsVoter[id] = isVoter
 
-	// Add the configuration to the log.
+	// Add the configuration to the log. The future is resolved once it is applied.
 	r.appendConfiguration(&configuration)
+	r.configurationResponseCh = configurationFuture.responseCh
 
 	r.configuration = &configuration
 	r.followers[id] = &follower{nextIndex: 1}
@@ -679,8 +680,9 @@ func (r *Raft) RemoveServer(id string, timeout time.Duration) Future[Configurati
 	delete(configuration.Members, id)
 	delete(configuration.IsVoter, id)
 
-	// Add the configuration to the log.
+	// Add the configuration to the log. The future is resolved once it is applied.
 	r.appendConfiguration(&configuration)
+	r.configurationResponseCh = configurationFuture.responseCh
 
 	r.sendAppendEntriesToPeers()
 
@@ -1783,6 +1785,7 @@ func (r *Raft) applyLoop() {
 			case ConfigurationEntry:
 				r.applyConfiguration(entry.Data)
 				respond(r.configurationResponseCh, *r.configuration, nil)
+				r.configurationResponseCh = nil
 			case OperationEntry:
 				responseCh := r.operationManager.pendingReplicated[entry.Index]
 				delete(r.operationManager.pendingReplicated, entry.Index)
@@ -1937,6 +1940,7 @@ func (r *Raft) becomeFollower(leaderID string, term uint64) {
 	// Cancel any pending operations.
 	r.operationManager.notifyLostLeaderShip(r.id, r.leaderID)
 	r.operationManager = newOperationManager(r.options.leaseDuration)
+	r.cancelConfigurationChange()
 
 	r.logger.Infof("entered the follower state: term = %d", r.currentTerm)
 }
@@ -1952,6 +1956,14 @@ func (r *Raft) stepdown() {
 	r.operationManager = newOperationManager(r.options.leaseDuration)
 
 	r.logger.Info("stepped down to the follower state")
+}
+
+// cancelConfigurationChange fails the future of a membership change that was
+// submitted to this node if it has not been resolved yet. A node that is no longer
+// the leader does not learn whether the change will be committed.
+func (r *Raft) cancelConfigurationChange() {
+	respond(r.configurationResponseCh, Configuration{}, ErrNotLeader)
+	r.configurationResponseCh = nil
 }
 
 // tryApplyReadOnlyOperations renews the lease and notifies the read-only
